@@ -457,18 +457,21 @@ func TestC19Http(t *testing.T) {
 	var rec func(prefix []htAct)
 	rec = func(prefix []htAct) {
 		nconn, npend := 0, []int{}
-		if len(prefix) > 0 && jr.skip[idx] { // wedged or died in an earlier attempt of this run: reported then
+		key := trKey(prefix)
+		if len(prefix) > 0 && jr.skip[key] { // wedged or died in an earlier attempt of this run: reported then
 			idx++
 			return
 		}
 		if len(prefix) > 0 {
 			var h *htRun
 			if want(idx) {
-				jr.begin(idx)
+				jr.begin(key)
 				h = emitHttp(em, t, idx, interval, timeout, prefix, "enum")
 				jr.end()
 			} else {
-				h, _ = runHttp(t, interval, timeout, prefix)
+				unguard := trGuard(em, idx, "http-lockstep", map[string]any{"acts": prefix, "rerun": true}, []string{"http-rerun"})
+				h, _ = runHttp(t, interval, timeout, prefix) // a re-run for the enumeration's sake: guarded all the same
+				unguard()
 			}
 			idx++
 			nconn, npend = len(h.conns), pendingIdx(h.rDone)
